@@ -7,8 +7,6 @@ import (
 	"testing"
 
 	"github.com/bronlabs/bron-crypto/pkg/proofs/sigma/compiler"
-	"github.com/bronlabs/bron-crypto/pkg/proofs/sigma/compiler/fiatshamir"
-	"github.com/bronlabs/bron-crypto/pkg/proofs/sigma/compiler/fischlin"
 	"verif/harness/vlib"
 )
 
@@ -19,90 +17,180 @@ const (
 	// A component nested inside a commitment / response (below the level whose presence the
 	// compilers' UnmarshalCBOR checks) that is CBOR null or missing is dereferenced by Verify.
 	knownNilComponent = "C08-nil-component-panic"
-	// A direct-power element (Okamoto response, ElGamal statement-shaped commitments) decoded with
-	// fewer components than the protocol's arity is indexed out of range by Verify.
-	knownArityPanic = "C08-component-count-panic"
 )
+
+var knownIDs = []string{knownNilComponent}
 
 func matchKnown(in inst, cn compiler.Name, m mutation, violation, panicMsg string) string {
 	switch {
 	case violation == "panic" && strings.Contains(panicMsg, "nil pointer dereference") && (m.op == "null" || m.op == "map-drop"):
 		return knownNilComponent
-	case violation == "panic" && strings.Contains(panicMsg, "index out of range") && strings.Contains(m.class, "components") &&
-		(m.op == "null" || m.op == "map-drop" || m.op == "arr-trunc"):
-		return knownArityPanic
 	}
 	return ""
 }
 
-// TestKnownPanics observes C08-nil-component-panic and C08-component-count-panic: every
-// (sub)tree of a few small proofs is replaced by null, and every array is shortened by one, in turn.
-func TestKnownPanics(t *testing.T) {
-	if k, _ := vlib.Shard(); k != 0 {
-		t.Skip("observed by shard 0")
+// applyAt applies a deterministic variant of op at site s of a decoded tree; false: not applicable.
+func applyAt(s site, op string) bool {
+	n := s.n
+	switch op {
+	case "null":
+		if s.parent == nil || s.isKey || s.idx < 0 {
+			return false
+		}
+		*n = node{major: 7, ai: 22}
+	case "map-drop":
+		if !s.isKey {
+			return false
+		}
+		p := s.parent
+		p.kids = append(append([]*node(nil), p.kids[:s.idx]...), p.kids[s.idx+2:]...)
+	case "key-flip":
+		if !s.isKey || n.major != 3 || len(n.data) == 0 {
+			return false
+		}
+		n.data[len(n.data)-1] ^= 1
+	case "arr-trunc":
+		if n.major != 4 || len(n.kids) == 0 {
+			return false
+		}
+		n.kids = n.kids[:len(n.kids)-1]
+	case "arr-extend":
+		if n.major != 4 || len(n.kids) == 0 {
+			return false
+		}
+		n.kids = append(n.kids, n.kids[len(n.kids)-1].clone())
+	case "bstr-trunc-front", "bstr-trunc-back", "bstr-extend-front", "bstr-extend-back", "bitflip-first", "bitflip-last":
+		if !s.isLeaf() || n.major != 2 || len(n.data) == 0 {
+			return false
+		}
+		switch op {
+		case "bstr-trunc-front":
+			n.data = n.data[1:]
+		case "bstr-trunc-back":
+			n.data = n.data[:len(n.data)-1]
+		case "bstr-extend-front":
+			n.data = append([]byte{0}, n.data...)
+		case "bstr-extend-back":
+			n.data = append(n.data, 0)
+		case "bitflip-first":
+			n.data[0] ^= 0x80
+		default:
+			n.data[len(n.data)-1] ^= 1
+		}
+	case "wide-head":
+		if n.major == 7 || n.wide != 0 {
+			return false
+		}
+		n.wide = 8
+	default:
+		panic("harness: unknown enumerated operator " + op)
 	}
+	return true
+}
+
+var enumOps = []string{"null", "map-drop", "key-flip", "arr-trunc", "arr-extend", "bstr-trunc-front", "bstr-trunc-back",
+	"bstr-extend-front", "bstr-extend-back", "bitflip-first", "bitflip-last", "wide-head"}
+
+// TestTamperEveryClass: on one small proof per (protocol / composition shape, compiler), EVERY
+// class of site (path with array indices erased) is hit by EVERY deterministic operator
+// variant. The oracle is the one of TestNITamper; the catalogued findings are observed here
+// (vlib.Known) and everything else must hold.
+func TestTamperEveryClass(t *testing.T) {
+	const test = "TamperEveryClass"
 	type probe struct {
 		sp spec
 		cn compiler.Name
 	}
-	probes := []probe{
-		{spec{Kind: "andc(S,O)", Group: "k256", Seed: 1, WClass: "rnd", Gen: "std", N: 2}, fiatshamir.Name},
-		{spec{Kind: "and^n(S)", Group: "k256", Seed: 2, WClass: "rnd", Gen: "std", N: 2}, fiatshamir.Name},
-		{spec{Kind: "or^n(S)", Group: "k256", Seed: 3, WClass: "rnd", Gen: "std", N: 2}, fiatshamir.Name},
-		{spec{Kind: "orc(S,O)", Group: "k256", Seed: 4, WClass: "rnd", Gen: "std", N: 2}, fiatshamir.Name},
-		{spec{Kind: "batch-schnorr", Group: "k256", Seed: 5, WClass: "rnd", Gen: "std", N: 2}, fiatshamir.Name},
-		{spec{Kind: "elog", Group: "k256", Seed: 6, WClass: "rnd", Gen: "std", N: 2}, fiatshamir.Name},
-		{spec{Kind: "okamoto", Group: "k256", Seed: 7, WClass: "rnd", Gen: "std", N: 2}, fiatshamir.Name},
-		{spec{Kind: "elcomop", Group: "k256", Seed: 8, WClass: "rnd", Gen: "std", N: 2}, fiatshamir.Name},
-		{spec{Kind: "schnorr", Group: "k256", Seed: 9, WClass: "rnd", Gen: "std", N: 2}, fiatshamir.Name},
-		{spec{Kind: "schnorr", Group: "k256", Seed: 10, WClass: "rnd", Gen: "std", N: 2}, fischlin.Name},
-		{spec{Kind: "andc(S,O)", Group: "k256", Seed: 11, WClass: "rnd", Gen: "std", N: 2}, fischlin.Name},
+	var probes []probe
+	i := 0
+	for _, kind := range append(append([]string(nil), baseKinds...), composedKinds...) {
+		for _, cn := range allCompilers {
+			i++
+			n := 2
+			probes = append(probes, probe{spec{Kind: kind, Group: []string{"k256", "ed25519", "bls12381g1"}[i%3], Seed: uint64(100 + i), WClass: "rnd", Gen: "std", N: n, Branch: i % 2}, cn})
+		}
 	}
 	hits := map[string][]string{}
 	sites := 0
-	for _, pr := range probes {
+	for pi, pr := range probes {
+		if !vlib.Mine(pi) {
+			continue
+		}
 		in := buildSpec(pr.sp)
-		cs := ctxSpec{Seed: pr.sp.Seed}
+		cs := ctxSpec{Seed: pr.sp.Seed, BindPID: true, PID: 1}
 		proof := proveAndCheck(t, in, pr.cn, cs, pr.sp.Seed, pr.sp.String())
+		canonO, err := in.Canon(pr.cn, proof)
+		if err != nil {
+			t.Fatalf("%v: honest proof undecodable: %v", pr.sp, err)
+		}
 		root, err := decodeTree(proof)
 		if err != nil {
 			t.Fatalf("harness: %v", err)
 		}
 		seen := map[string]bool{}
-		for i, s := range walk(root) {
-			for _, op := range []string{"null", "arr-trunc"} {
-				if s.parent == nil || s.isKey || s.idx < 0 || seen[op+s.class] || (op == "arr-trunc" && (s.n.major != 4 || len(s.n.kids) == 0)) {
+		for si, s := range walk(root) {
+			for _, op := range enumOps {
+				if seen[op+s.class] {
+					continue
+				}
+				r2, _ := decodeTree(proof)
+				s2 := walk(r2)[si]
+				if !applyAt(s2, op) {
 					continue
 				}
 				seen[op+s.class] = true
-				r2, _ := decodeTree(proof)
-				s2 := walk(r2)[i]
-				if op == "null" {
-					*s2.n = node{major: 7, ai: 22}
-				} else {
-					s2.n.kids = s2.n.kids[:len(s2.n.kids)-1]
+				base := op
+				if j := strings.IndexByte(op[1:], '-'); j >= 0 && (strings.HasPrefix(op, "bstr") || strings.HasPrefix(op, "bitflip")) {
+					base = op[:strings.LastIndexByte(op, '-')]
 				}
-				m := mutation{op: op, class: s.class, path: s.path, bytes: r2.encode()}
-				ctxV, _ := cs.build(verifierID)
+				m := mutation{op: base, class: s.class, path: s.path, bytes: r2.encode()}
 				sites++
+				canonM, derr := in.Canon(pr.cn, m.bytes)
+				verdict := "reject:value-changed"
+				switch {
+				case derr != nil:
+					verdict = "reject:undecodable"
+				case string(canonM) == string(canonO):
+					verdict = "accept:same-values"
+				}
+				ctxV, _ := cs.build(verifierID)
 				var verr error
 				msg, stack := catchPanic(func() { verr = in.Verify(pr.cn, ctxV, 1, "", false, m.bytes, false) })
+				violation := ""
 				switch {
 				case msg != "":
-					id := matchKnown(in, pr.cn, m, "panic", msg)
+					violation = "panic"
+				case verdict == "accept:same-values" && verr != nil:
+					violation = "rejected-same-values"
+				case verdict != "accept:same-values" && verr == nil:
+					violation = "accepted"
+				}
+				if violation != "" {
+					id := matchKnown(in, pr.cn, m, violation, msg)
 					if id == "" {
-						t.Errorf("TAMPER: %v under %s: %s at %s PANICKED (not catalogued): %s\n%s", pr.sp, pr.cn, op, s.path, msg, stack)
+						if discoverMode() {
+							vlib.Class(test, "VIOLATION:"+violation+"="+in.Proto()+"/"+in.Shape()+"/"+string(pr.cn)+"/"+op+":"+shortClass(s.class)+" "+firstLine(msg))
+							continue
+						}
+						t.Errorf("TAMPER: %v under %s: %s at %s (%s): %s %s\nmutated: %x\n%s", pr.sp, pr.cn, op, s.path, verdict, violation, msg, m.bytes, stack)
 						continue
 					}
 					hits[id] = append(hits[id], fmt.Sprintf("%s/%s/%s:%s", pr.sp.Kind, pr.cn, op, s.class))
-				case verr == nil:
-					t.Errorf("TAMPER: %v under %s: %s at %s was ACCEPTED", pr.sp, pr.cn, op, s.path)
+					vlib.Case(test, vlib.Desc(in.Shape(), pr.cn, op, "known:"+id), false, "verdict=known:"+id)
+					continue
 				}
+				vlib.Case(test, vlib.Desc(in.Proto(), pr.cn, in.Shape(), in.Group(), "tamper:"+op, verdict, s.class), true,
+					"op="+op, "verdict="+verdict, "op/verdict="+op+"/"+verdict, "compiler="+string(pr.cn))
 			}
 		}
 	}
-	for _, id := range []string{knownNilComponent, knownArityPanic} {
+	for _, id := range knownIDs {
 		sort.Strings(hits[id])
-		vlib.Known(id, len(hits[id]) > 0, fmt.Sprintf("%d of %d null / shortened-array placements in 11 small proofs make Verify panic: %s", len(hits[id]), sites, strings.Join(hits[id], "; ")))
+		what := strings.Join(hits[id], "; ")
+		if len(what) > 1500 {
+			what = what[:1500] + " ..."
+		}
+		vlib.Known(id, len(hits[id]) > 0, fmt.Sprintf("shard observation: %d of %d enumerated (site class, operator) placements: %s", len(hits[id]), sites, what))
 	}
+	vlib.Exhaustive("one proof per (15 protocol / composition kinds x 3 compilers): every site class x 12 deterministic operator variants")
 }
